@@ -91,3 +91,77 @@ func c11Contexts(c *run.Ctx) {
 		c.Eval(fmt.Sprintf("ctx|%d|%d", i%len(docs), i), true)
 	}
 }
+
+// c11KeptSubscription: a subscription request parsed once and resolved several times - for the SAME Subscriber value (one
+// connection asking for the same stream with other variables) and for another one - registers one subscription per
+// resolution, exactly like fresh parses of the same text do: every publish reaches each of them once, each message is the
+// selection applied with the variables of ITS request.
+func c11KeptSubscription(c *run.Ctx) {
+	const text = `subscription Watch($k: Int = 7) { listen(topic: "c1") { id e0: echo(x: $k) } }`
+	n := c.N(30, 400)
+	for i := 0; i < n && !c.TooMany(); i++ {
+		r := c.Rand(1150000 + i)
+		type outcome struct {
+			msgs []string
+			cnt  []int
+		}
+		runHist := func(kept bool, ks []int, conns []int) (o outcome, diag string) {
+			ro := &c19ConnRoot{}
+			root := ggql.NewRoot(ro)
+			if err := root.ParseString(subSDL); err != nil {
+				return o, "schema rejected: " + err.Error()
+			}
+			cs := []*c19Conn{{id: "c1"}, {id: "c1"}}
+			var exe *ggql.Executable
+			for j, k := range ks {
+				ro.next = cs[conns[j]]
+				var err error
+				pv, _ := run.Protect(func() {
+					if !kept || exe == nil {
+						exe, err = root.ParseExecutableString(text)
+					}
+					if err == nil {
+						_, err = root.ResolveExecutable(exe, "", map[string]interface{}{"k": k})
+					}
+				})
+				if pv != nil || err != nil {
+					return o, fmt.Sprintf("subscription request %d: %v %v", j, pv, err)
+				}
+			}
+			for e := 1; e <= 2; e++ {
+				cnt, err := root.AddEvent("c1", &subEvent{uid: int64(e), id: fmt.Sprintf("e%d", e), n: e, tag: "t"})
+				if err != nil {
+					return o, "AddEvent: " + err.Error()
+				}
+				o.cnt = append(o.cnt, cnt)
+			}
+			for _, k := range cs {
+				o.msgs = append(o.msgs, fmt.Sprint(k.sent))
+			}
+			return o, ""
+		}
+		m := 2 + r.Intn(3)
+		ks := make([]int, m)
+		conns := make([]int, m)
+		for j := range ks {
+			ks[j] = []int{1, 100, 1, 5}[r.Intn(4)] + j*1000*r.Intn(2)
+			conns[j] = r.Intn(2) * r.Intn(2) // mostly the same connection
+		}
+		a, da := runHist(true, ks, conns)
+		b, db := runHist(false, ks, conns)
+		c.Eval(fmt.Sprintf("kept-subscription|%v|%v", ks, conns), true)
+		c.Count("subscription_histories_on_a_kept_executable", 1)
+		diag := ""
+		switch {
+		case da != "" || db != "":
+			diag = da + " / " + db
+		case fmt.Sprint(a) != fmt.Sprint(b):
+			diag = fmt.Sprintf("kept executable: matched %v, connections received %v; fresh parses: matched %v, received %v", a.cnt, a.msgs, b.cnt, b.msgs)
+		case a.cnt[0] != m:
+			diag = fmt.Sprintf("%d subscription requests, a publish matched %d", m, a.cnt[0])
+		}
+		if diag != "" {
+			c.Violation("c11-kept-subscription", map[string]interface{}{"document": text, "variables_k": ks, "connection_of_each_request": conns, "diag": diag})
+		}
+	}
+}
